@@ -37,6 +37,67 @@
     attached, buffered sessions whose handler is still busy:            C05_live_refs_inbox,
     Nexus/Props/C05.lean — part of `RealmInv`)
 
+  THE BOUNDED EXCEPTION: "a callee whose result cannot be delivered because
+    the caller does not read is held back for at most the result-retry
+    period before that call is cancelled" (`dealer.yield`; the model:
+    `handleYield`, `Retry`, `retryDue`, `nextDue`/`advance`)
+  in every reachable state (no fuel marker) every entry of the retry table
+    is in one of the 16 phases, is not due (`now < next`), satisfies
+    `next + 1 = start + 2·delay`, `next ≤ start + 65535`, `start ≤ now`:
+    NO HANDLER IS HELD BACK LONGER THAN 65.535 s; one entry per callee
+    (the meta session apart: `C07_retry_nodup_meta_fails`)                C07_retry_bounded
+  the invariant `RetryInv` behind it holds between the atomic actions of a
+    step too and is preserved by each of them                             C07_retry_inv_preserved
+  every turn of the loop that `advance` runs fires exactly at the entry's
+    time, in a phase ≤ 16: the hypotheses of `C13_retry_turn` /
+    `C13_retry_bound` hold for it                                         C07_retry_turns_on_time
+  the turn in phase 16 (65535 ms after the start, the first turn at or
+    after the 60 s deadline): the dealer is asked with canRetry = false,
+    the RESULT is dropped, the call cancelled (killnowait,
+    wamp.error.canceled; the ERROR meets the full queue), the callee is
+    free AT THAT MOMENT and its waiting input is released                 C07_retry_gives_up
+  end to end: after a tick reaching `start + 65535` the entry is gone
+    (every remaining entry started later)                                 C07_retry_released_by_tick
+  the constants are those of router/dealer.go                             C07_retry_constants
+  restricted F19 guarantee: the meta session's handler enters the loop
+    only for the RESULT of a meta procedure whose caller's queue is full  C07_meta_retry_only_full_caller
+  STALL ISOLATION — "every other session's requests are still answered and its
+    events and invocations delivered completely and in order, without delay".
+    `EqOff x r r'` (Nexus/L2/Proofs/WpCStallBase.lean): the two states agree on every
+    table, task, clock, counter and the panic flag, and differ at most in what concerns
+    x alone: the contents of x's outbound queue, whether x reads (`stalled`), whether
+    x's closure has been observed (`closedPeers`/`ghosts` at x).
+  a send to ANYBODY keeps the two states equal off x (a send to x may be
+    queued in one and dropped in the other; a send to k ≠ x finds the
+    same room; "peer closed" is hit in both or in neither)               C07_stall_isolation_send
+  PUBLISH / SUBSCRIBE / UNSUBSCRIBE of every session (x too), the
+    authorization gate included: equal off x afterwards, so every other
+    queue has the same contents in the same order                        C07_stall_isolation_pubsub
+  the dealer consults `full` only at: the chosen callee (INVOCATION), the
+    callee of the invocation (INTERRUPT), the caller (RESULT); environments
+    that agree off x give IDENTICAL dealer outputs when x is none of them   C07_stall_dealer_congruence
+  any message of a session other than x, while x takes no part in any RPC
+    (`Idle x`: dealer tables do not mention x, x's handler not in the
+    retry loop, none of its RPC messages waiting): equal off x, and x
+    still takes no part                                                   C07_stall_isolation_rpc
+  the same for every atomic action: internal tasks (meta events, meta
+    procedures, departures — of x too), inputs, call timeouts, retry turns   C07_stall_isolation_actions
+  ONE STEP (`Realm.step`, any input except an RPC message of x; `tick`
+    included): successor states equal off x; every client other than x
+    reads exactly the same messages in the same order and sees the same
+    closures; same panic flag; side conditions hold again                  C07_stall_isolation
+  HISTORIES: the same inputs, except that x stops/resumes reading at
+    different moments (or never): nobody else can tell the difference       C07_stall_isolation_history,
+                                                                            C07_stall_unobservable
+  the side conditions hold in every state reached without an RPC
+    message of x (x may publish, subscribe, stall, leave, rejoin)           C07_stall_idle_reachable
+  the EXCEPTIONS are real: with x registered as a callee and x's queue
+    full the caller of x's procedure gets ERROR network_failure (at once:
+    in the same atomic action) instead of silence                           C07_stall_isolation_needs_idle,
+                                                                            C07_stall_exception_callee,
+    and a YIELD for a call of a full x puts the callee's handler into       C07_stall_exception_caller
+    the retry loop (`C13_retry_*`, C07_retry_*)
+
   Explicit assumption (hypothesis `JoinFresh` of every `join`): a joining session key names no attached
   client and no leftover queue.  Session keys are the model's internal names for sessions (the
   implementation draws fresh random session ids); the harness never reuses one.  Without it the model
@@ -44,6 +105,9 @@
 -/
 import Nexus.L2.Proofs.RealmQueue
 import Nexus.L2.Proofs.DealerRealmRpc
+import Nexus.L2.Proofs.WpCRetryGiveup
+import Nexus.L2.Proofs.WpCStallHist
+import Nexus.L2.Proofs.DealerExamples
 
 namespace Nexus.C07
 open Nexus.L2 Nexus.L2.Realm Gen.N
@@ -246,5 +310,756 @@ theorem C07_bound_needs_fresh_join :
       rw [stepOp_join]; simp [Realm.addTasks])
     revert this
     decide
+
+/-! ## The yield retry loop is bounded
+
+  `dealer.yield` (router/dealer.go:345-385): when `syncYield` reports that the RESULT met a full caller queue
+  the callee's handler goroutine sleeps `delay` (1 ms, doubling), re-posts the YIELD, and after the first
+  sleep that ends at or beyond `sendResultDeadline` (1 min) re-posts it with `retry = false`, which makes
+  `syncYield` drop the RESULT and cancel the call.  Model: `Realm.handleYield` appends a `Retry` entry
+  (`start = now`, `next = now + 1`, `delay = 1`), `Realm.retryDue` is one turn, `Realm.advance` fires the
+  entries at their `next` time.  `InPhase x n`: `x.next + 1 = x.start + 2^n ∧ x.delay = 2^(n-1)`. -/
+section RetryLoop
+open Nexus.L2.WpC
+
+/-- the two constants of the loop.  They are hand-copied from /repo/router/dealer.go, lines 18-23
+    (`sendResultDeadline = time.Minute`, line 21; `yieldRetryDelay = time.Millisecond`, line 23; used in
+    `dealer.yield`, lines 363 and 372); no generator checks them. -/
+theorem C07_retry_constants : sendResultDeadlineMs = 60000 ∧ yieldRetryDelayMs = 1 := ⟨rfl, rfl⟩
+
+example : sendResultDeadlineMs = 60000 := rfl
+example : yieldRetryDelayMs = 1 := rfl
+/-- 2^16 − 1 = 65535 ms is the first turn at or after the deadline: turn 15 (32767 ms) is before it -/
+example : 2 ^ 15 - 1 < sendResultDeadlineMs ∧ sendResultDeadlineMs ≤ 2 ^ 16 - 1 := by decide
+
+/-- THE BOUND, over histories.  In every state reachable from `Realm.create cfg` by external inputs (each run to
+    quiescence) in which no fuel marker of the model was ever set (`panic = none`: the flag is sticky), every
+    handler sleeping in the retry loop of `dealer.yield` (entry `x` of `retries`)
+    * is in one of the phases 1 … 16 of the loop,
+    * is not due: its next turn lies strictly in the future (every turn that was due has been run),
+    * will take that turn `2·delay − 1` ms after the start of the loop and at most 65535 ms after it,
+    * started in the past — hence has been held back for LESS THAN 65.535 s (2^16 − 1 ms: not 60 s — the last
+      sleep starts 32.767 s after the start and lasts 32.768 s);
+    and no session other than the meta session has two entries (a busy handler reads no further YIELD;
+    the meta session can: `C07_retry_nodup_meta_fails`).
+    These are the hypotheses `InPhase x n` of `C13_retry_turn`/`C13_retry_bound`; their other hypothesis
+    `now = next` is what `advance` arranges (`C07_retry_turns_on_time`).
+    Without `panic = none` the statement is false of the model: when `advance` runs out of fuel it sets the
+    clock to the target with due entries left (`now ≥ next`; example below). -/
+theorem C07_retry_bounded {cfg : Config} {r : Realm} (h : Realm.Reachable cfg r) (hp : r.panic = none) :
+    (∀ x ∈ r.retries,
+      (∃ n, 1 ≤ n ∧ n ≤ 16 ∧ InPhase x n) ∧ r.now < x.next ∧ x.next + 1 = x.start + 2 * x.delay ∧
+      x.next ≤ x.start + 65535 ∧ x.start ≤ r.now ∧ r.now - x.start < 65535) ∧
+    ((r.retries.filter (fun x => x.callee != metaKey)).map (·.callee)).Nodup := by
+  obtain ⟨hi, hs⟩ := reachable_retry h hp
+  refine ⟨fun x hx => ?_, hi.nodup⟩
+  obtain ⟨hph, _, hst⟩ := hi.1 x hx
+  obtain ⟨a1, a2⟩ := (hi.1 x hx).arith
+  have := hs x hx
+  exact ⟨hph, this, a1, a2, hst, by omega⟩
+
+/-- why `panic = none`: `advance` out of fuel jumps to the target although the entry was due at time 1 -/
+example : let x : Retry := { callee := 1, req := 5, opts := [], args := [], kw := [], progress := false,
+                             start := 0, next := 1, delay := 1 }
+    let r : Realm := { retries := [x] }
+    (advance 0 r 5).retries.map (·.next) = [1] ∧ (advance 0 r 5).now = 5 ∧ (advance 0 r 5).panic ≠ none := by
+  intro x r; decide
+
+/-- concrete reachable states used as witnesses: client 1 joins with a queue of capacity 0 (it never has room:
+    the extreme case of a client that does not read) and calls the meta procedure `wamp.session.count` -/
+def Ex.r1 : Realm := (((Realm.create {}).getD {}).step (.join 1 false [] [] 0)).2
+/-- … the RESULT cannot be delivered: the META SESSION's handler is in the retry loop -/
+def Ex.rA : Realm := (Ex.r1.step (.msg 1 (.call 1 [] "wamp.session.count" [] []))).2
+/-- … a second call: a second entry for the meta session -/
+def Ex.rB : Realm := (Ex.rA.step (.msg 1 (.call 2 [] "wamp.session.count" [] []))).2
+/-- `rA`, 65534 ms later: phase 16, the last turn is 1 ms away -/
+def Ex.rL : Realm := (Ex.rA.step (.tick 65534)).2
+/-- `rA`, 65535 ms later -/
+def Ex.rZ : Realm := (Ex.rA.step (.tick 65535)).2
+
+theorem Ex.create_some : Realm.create {} = some ((Realm.create {}).getD {}) := by
+  have : (Realm.create {}).isSome = true := by decide +kernel
+  cases h : Realm.create {} with
+  | none => rw [h] at this; cases this
+  | some r => rfl
+
+theorem Ex.rA_reach : Realm.Reachable {} Ex.rA := .step _ (.step _ (.init Ex.create_some))
+theorem Ex.rB_reach : Realm.Reachable {} Ex.rB := .step _ Ex.rA_reach
+theorem Ex.rL_reach : Realm.Reachable {} Ex.rL := .step _ Ex.rA_reach
+theorem Ex.rZ_reach : Realm.Reachable {} Ex.rZ := .step _ Ex.rA_reach
+
+set_option maxRecDepth 10000 in
+theorem Ex.rB_retries : Ex.rB.retries.map (fun x => (x.callee, x.req, x.start, x.next, x.delay)) =
+    [(0, 1, 0, 1, 1), (0, 2, 0, 1, 1)] ∧ Ex.rB.panic = none := by decide +kernel
+
+set_option maxRecDepth 10000 in
+theorem Ex.rL_retries : Ex.rL.retries.map (fun x => (x.callee, x.req, x.start, x.next, x.delay)) =
+    [(0, 1, 0, 65535, 32768)] ∧ Ex.rL.panic = none ∧ Ex.rL.now = 65534 ∧
+    Ex.rL.ds.d.calls = [⟨1, 1⟩] := by decide +kernel
+
+set_option maxRecDepth 10000 in
+theorem Ex.rZ_free : Ex.rZ.retries = [] ∧ Ex.rZ.panic = none ∧ Ex.rZ.now = 65535 ∧ Ex.rZ.ds.d.calls = [] ∧
+    Ex.rZ.ds.d.invs = [] := by decide +kernel
+
+/-- non-vacuity of `C07_retry_bounded`: a reachable state without fuel marker whose retry table is not empty -/
+example : ∃ r, Realm.Reachable {} r ∧ r.panic = none ∧ r.retries.length = 1 :=
+  ⟨Ex.rL, Ex.rL_reach, Ex.rL_retries.2.1, by
+    have := congrArg List.length Ex.rL_retries.1
+    simpa using this⟩
+
+/-- The "one entry per callee" clause is FALSE for the meta session, in the model: the answers of the meta-procedure
+    handler are fed to the meta session's handler (`Task.metaMsg`) without looking at `busy`, so a second
+    RESULT for a full caller makes a second entry.  History: `create {}`; `join 1` with capacity 0;
+    `msg 1 CALL(1, wamp.session.count)`; `msg 1 CALL(2, wamp.session.count)`.  (In the Go router the meta session has
+    one handler goroutine: the second YIELD waits in `metaProcedureHandler`'s `send` until the loop for the first
+    has ended.  `retryDue` removes ALL entries of its callee, so in the model the second YIELD is never
+    retried: a model defect, reported.) -/
+theorem C07_retry_nodup_meta_fails :
+    ∃ r, Realm.Reachable {} r ∧ r.panic = none ∧ ¬ (r.retries.map (·.callee)).Nodup := by
+  refine ⟨Ex.rB, Ex.rB_reach, Ex.rB_retries.2, ?_⟩
+  have h := congrArg (List.map (fun t : SessKey × Nat × Nat × Nat × Nat => t.1)) Ex.rB_retries.1
+  simp only [List.map_map] at h
+  have h' : Ex.rB.retries.map (·.callee) = [0, 0] := h
+  rw [h']
+  decide
+
+set_option maxRecDepth 10000 in
+/-- … and what becomes of the second entry in the model: the first turn (1 ms later) removes both entries and
+    re-inserts only the one it retried; 70 s later the table is empty, call 1 has been cancelled, but call 2 and its
+    invocation are still stored and nothing will ever answer or cancel it (until its caller leaves).  In the Go
+    router the second YIELD is processed after the first loop has ended and goes through its own loop. -/
+example : (Ex.rB.step (.tick 1)).2.retries.map (fun x => (x.callee, x.req, x.next)) = [(0, 1, 3)] ∧
+    (Ex.rB.step (.tick 70000)).2.retries = [] ∧ (Ex.rB.step (.tick 70000)).2.panic = none ∧
+    (Ex.rB.step (.tick 70000)).2.ds.d.calls = [⟨1, 2⟩] := by decide +kernel
+
+/-- The invariant behind `C07_retry_bounded`, which also holds INSIDE a step (between the atomic actions of `drain`
+    and `advance`): `RetryInv r` = every entry is in a phase 1 … 16, not overdue (`now ≤ next`), started in the
+    past; two entries have different callees unless it is the meta session.  `Strict r` = no entry is due.
+    For a state satisfying `RealmInv`:
+    * every external input (`stepOp`) and every internal task (`runTask`) keeps it — only `handleYield` appends
+      an entry (phase 1, `start = now`), for a handler that was not busy or for the meta session; nothing else
+      touches `retries` or `now`;
+    * a firing call timer keeps it; a turn of the loop keeps it WHEN FIRED AT ITS TIME (`now = next`): the entry
+      moves to phase `n+1 ≤ 16` ("again" needs `canRetry`, i.e. `n ≤ 15`) or disappears;
+    * `drain` keeps it and does not move the clock; one timed event of `advance` keeps it (the clock jumps to the
+      EARLIEST due event, so no other entry is passed);
+    * `advance` keeps it, reaches the target, and leaves no entry due — unless it sets its fuel marker;
+    * `flush` keeps it. -/
+theorem C07_retry_inv_preserved {r : Realm} (hi : RealmInv r) (h : RetryInv r) :
+    (∀ op, RetryInv (r.stepOp op)) ∧
+    (∀ t, RetryInv (r.runTask t)) ∧
+    (∀ t, RetryInv (r.timerDue t)) ∧
+    (∀ x ∈ r.retries, r.now = x.next → RetryInv (r.retryDue x)) ∧
+    (∀ fuel, RetryInv (drain fuel r) ∧ (drain fuel r).now = r.now ∧ (Strict r → Strict (drain fuel r))) ∧
+    (∀ target d, r.now ≤ target → nextDue r target = some d →
+      RetryInv (fireDue r d) ∧ (fireDue r d).now ≤ target) ∧
+    (∀ fuel target, r.now ≤ target → (advance fuel r target).panic = none →
+      RetryInv (advance fuel r target) ∧ Strict (advance fuel r target) ∧ (advance fuel r target).now = target) ∧
+    RetryInv r.flush.2 :=
+  ⟨fun op => h.stepOp op, fun t => h.runTask hi.metaKey t, fun t => h.of_rn (rn_timerDue r t),
+   fun _ hx hnow => h.retryDue hx hnow, fun fuel => drain_retry fuel hi h,
+   fun _ _ hle hd => fireDue_retry hi h hle hd,
+   fun fuel target hle hp =>
+     ⟨(advance_retry fuel target hi h hle hp).1, (advance_retry fuel target hi h hle hp).2, advance_now fuel r target⟩,
+   h.of_rn (rn_flush r)⟩
+
+/-- a hand-written state satisfying `RetryInv`: two handlers in the loop, phases 1 and 3, at time 10 -/
+example : RetryInv ({
+    now := 10,
+    retries := [{ callee := 1, req := 5, opts := [], args := [], kw := [], progress := false, start := 10, next := 11, delay := 1 },
+                { callee := 2, req := 7, opts := [], args := [], kw := [], progress := true, start := 4, next := 11, delay := 4 }] } : Realm) := by
+  refine ⟨?_, ?_⟩
+  · intro x hx
+    simp only [List.mem_cons, List.not_mem_nil, or_false] at hx
+    rcases hx with rfl | rfl
+    · exact ⟨⟨1, by decide, by decide, by decide, by decide, by decide⟩, by decide, by decide⟩
+    · exact ⟨⟨3, by decide, by decide, by decide, by decide, by decide⟩, by decide, by decide⟩
+  · refine List.Pairwise.cons ?_ (List.pairwise_singleton _ _)
+    intro b hb
+    rw [List.mem_singleton.mp hb]
+    intro e
+    exact absurd e (by decide)
+
+/-- ON TIME.  Let `Adv target r evs r'` be a run of `Realm.advance` (`C13_advance_is_adv`) from a reachable state
+    without fuel marker (or any state satisfying `RealmInv` and `RetryInv`).  Every turn of the retry loop it runs —
+    event `(p, retry x)`: entry `x` fired in state `p` — is the turn of an entry of `p`'s table that is in a phase
+    `n ≤ 16`, and it runs with the clock set exactly to the entry's time: `fireDue p (retry x)` is `retryDue x` in
+    `{ p with now := x.next }` followed by the tasks it caused.  So the hypotheses `InPhase x n` and `now = x.next`
+    of `C13_retry_turn` and `C13_retry_bound` hold for every turn the model ever runs. -/
+theorem C07_retry_turns_on_time {cfg : Config} {r : Realm} (h : Realm.Reachable cfg r) (hp : r.panic = none)
+    {target : Nat} (hle : r.now ≤ target) {evs : List (Realm × Due)} {r' : Realm} (ha : Adv target r evs r') :
+    ∀ p ∈ evs, ∀ x, p.2 = .retry x →
+      x ∈ p.1.retries ∧ p.1.now ≤ x.next ∧ x.next ≤ target ∧ (∃ n, 1 ≤ n ∧ n ≤ 16 ∧ InPhase x n) ∧
+      ({ p.1 with now := x.next } : Realm).now = x.next ∧
+      fireDue p.1 (.retry x) = drain taskFuel (({ p.1 with now := x.next } : Realm).retryDue x) ∧
+      RealmInv ({ p.1 with now := x.next } : Realm) ∧ RetryInv ({ p.1 with now := x.next } : Realm) := by
+  intro p hpm x hx
+  obtain ⟨g1, _, g3, g4, g5, g6, g7, g8⟩ :=
+    adv_retry_fired ha h.inv.1 (reachable_retry h hp).1 hle p hpm x hx
+  exact ⟨g3, g4, g5, g6, rfl, g7,
+    g1.of_parts rfl g1.binv g1.dinv g1.bmem g1.dref g1.callers g1.retr g1.tasks g1.inb rfl, g8⟩
+
+/-- GIVING UP.  State `r` in which the turn of entry `x` fires: `x` is in one of the 16 phases and the clock is at its
+    time (`C07_retry_turns_on_time`: always so), and the deadline has passed: `sendResultDeadlineMs ≤ now − start`.
+    (`DealerInv r.ds` and "callers of pending calls are attached" are parts of `RealmInv`.)  Then
+    * this is phase 16, exactly 65535 ms after the start of the loop;
+    * the dealer is asked with `canRetry = false` and does not answer "again": the entry leaves the table, the
+      callee's handler is NOT BUSY any more;
+    * if the invocation `v` the YIELD answers is still stored, its caller's queue is still full and payload
+      passthru is not misused (otherwise the YIELD is handled as any YIELD: `C02_*`), the caller still has the call, and
+      - no kill-mode cancel outstanding (`v.canceled = false`): the RESULT is dropped and the call is cancelled as by
+        CANCEL killnowait — for a final and for a progressive result alike — : the dealer's output is one INTERRUPT to
+        the callee if it can be interrupted, then ERROR(CALL, wamp.error.canceled) for the caller; call, invocation
+        and its timer are removed (`cancelMark … forget`); the caller's queue is unchanged, i.e. the ERROR meets
+        the full queue and is dropped as well;
+      - a kill-mode cancel is outstanding: nothing is sent; a final result forgets the call, a progressive one
+        leaves it (`yieldFinish`);
+    * AT THAT MOMENT the callee's waiting input is released: after what the turn itself queued, the task list
+      gets the callee's waiting messages as `inMsg` tasks in arrival order, then its deferred departures as
+      `leave` tasks; `inbox` and `deferred` no longer mention the callee. -/
+theorem C07_retry_gives_up {r : Realm} (hd : DealerInv r.ds) (hcl : ∀ c ∈ r.ds.d.calls, r.isClient c.sess) {x : Retry}
+    (hph : ∃ n, 1 ≤ n ∧ n ≤ 16 ∧ InPhase x n) (hnow : r.now = x.next)
+    (hdl : sendResultDeadlineMs ≤ r.now - x.start) :
+    InPhase x 16 ∧ r.now = x.start + 65535 ∧
+    retryOut r x = syncYield r.denv r.ds x.callee x.req x.opts x.args x.kw x.progress false ∧
+    (retryOut r x).again = false ∧
+    (r.retryDue x).retries = r.retries.filter (fun y => y.callee != x.callee) ∧
+    (r.retryDue x).busy x.callee = false ∧
+    (∀ v, r.ds.d.findInv ⟨x.callee, x.req⟩ = some v → r.isFull v.callId.sess = true →
+      yieldPptCalleeBad r.denv x.callee x.opts = false → yieldPptCallerBad r.denv v.callId.sess x.opts = false →
+      v.callId ∈ r.ds.d.calls ∧
+      (v.canceled = false →
+        (retryOut r x).sends =
+          (if canInterrupt r.denv v CancelModeKillNoWait
+            then [interruptOf v ⟨x.callee, x.req⟩ CancelModeKillNoWait ErrCanceled] else []) ++
+          [callErr v.callId [] ErrCanceled [] []] ∧
+        (r.retryDue x).ds =
+          { cancelMark (yieldTimer r.ds x.progress v) v with
+            d := (cancelMark (yieldTimer r.ds x.progress v) v).d.forget v.callId ⟨x.callee, x.req⟩ } ∧
+        v.callId ∉ (r.retryDue x).ds.d.calls ∧
+        (r.retryDue x).ds.d.findInv ⟨x.callee, x.req⟩ = none ∧
+        (r.retryDue x).dqueueOf v.callId.sess = r.dqueueOf v.callId.sess) ∧
+      (v.canceled = true →
+        retryOut r x = { st := yieldFinish r.ds x.progress v ⟨x.callee, x.req⟩ })) ∧
+    (r.retryDue x).tasks =
+      r.tasks ++ retryTasks r x ++ (inboxOf r x.callee).map (Task.inMsg x.callee) ++
+        ((r.deferred.filter (fun d => d.1 == x.callee)).map (·.2)).map (Task.leave x.callee) ∧
+    (r.retryDue x).inbox = r.inbox.filter (fun d => d.1 != x.callee) ∧
+    (r.retryDue x).deferred = r.deferred.filter (fun d => d.1 != x.callee) := by
+  obtain ⟨n, _, hn16, hp⟩ := hph
+  have hn : n = 16 := phase16_of_deadline hn16 hp hnow hdl
+  subst hn
+  obtain ⟨l1, _, l3, l4⟩ := retryOut_last hp hnow
+  have hret : (r.retryDue x).retries = r.retries.filter (fun y => y.callee != x.callee) := by
+    rw [retryDue_retries, if_neg (by simp [l4])]
+  obtain ⟨t1, t2, t3, _, _⟩ := retryDue_release r x l4
+  refine ⟨hp, l1, l3, l4, hret, ?_, ?_, t1, t2, t3⟩
+  · unfold Realm.busy
+    rw [hret]
+    exact not_busy_filter _ _
+  · intro v hf hfull h1 h2
+    obtain ⟨hv, _⟩ := findInv_some_mem hf
+    have hcall : v.callId ∈ r.ds.d.calls := (hd.call.inv_call hv).1
+    have hout := retryOut_giveup hd hp hnow hf hfull h1 h2
+    refine ⟨hcall, fun hcan => ?_, fun hcan => ?_⟩
+    · rw [if_neg (by simp [hcan])] at hout
+      have hds : (r.retryDue x).ds =
+          { cancelMark (yieldTimer r.ds x.progress v) v with
+            d := (cancelMark (yieldTimer r.ds x.progress v) v).d.forget v.callId ⟨x.callee, x.req⟩ } := by
+        rw [retryDue_ds, hout]
+      refine ⟨by rw [hout], hds, ?_, ?_, retryDue_full_queue r x hfull (hcl _ hcall)⟩
+      · rw [hds]; simp
+      · rw [hds]; exact findInv_forget _ _ _
+    · rw [if_pos hcan] at hout
+      exact hout
+
+/-- non-vacuity of `C07_retry_gives_up`, on a state taken from a history: `Ex.rL` (reachable: the meta session has been
+    retrying the RESULT of `wamp.session.count` for client 1, whose queue has no room, for 65534 ms) with the clock
+    moved to the entry's time 65535 — the state in which `advance` fires the last turn.  All hypotheses hold, including
+    those of the cancellation clause (`v.canceled = false`). -/
+example : ∃ (r : Realm) (x : Retry), RealmInv r ∧ x ∈ r.retries ∧ (∃ n, 1 ≤ n ∧ n ≤ 16 ∧ InPhase x n) ∧
+    r.now = x.next ∧ sendResultDeadlineMs ≤ r.now - x.start ∧
+    ∃ v, r.ds.d.findInv ⟨x.callee, x.req⟩ = some v ∧ r.isFull v.callId.sess = true ∧
+      yieldPptCalleeBad r.denv x.callee x.opts = false ∧ yieldPptCallerBad r.denv v.callId.sess x.opts = false ∧
+      v.canceled = false := by
+  have hi := Ex.rL_reach.inv.1
+  have hr : RealmInv ({ Ex.rL with now := 65535 } : Realm) :=
+    hi.of_parts rfl hi.binv hi.dinv hi.bmem hi.dref hi.callers hi.retr hi.tasks hi.inb rfl
+  have key : (match Ex.rL.retries with
+      | [x] => x.next == 65535 && x.start == 0 && x.delay == 32768 &&
+          (match Ex.rL.ds.d.findInv ⟨x.callee, x.req⟩ with
+           | some v => Ex.rL.isFull v.callId.sess && !yieldPptCalleeBad Ex.rL.denv x.callee x.opts &&
+               !yieldPptCallerBad Ex.rL.denv v.callId.sess x.opts && !v.canceled
+           | none => false)
+      | _ => false) = true := by
+    set_option maxRecDepth 10000 in decide +kernel
+  cases hret : Ex.rL.retries with
+  | nil => rw [hret] at key; cases key
+  | cons x rest =>
+    cases rest with
+    | cons _ _ => rw [hret] at key; cases key
+    | nil =>
+      rw [hret] at key
+      simp only [Bool.and_eq_true, beq_iff_eq] at key
+      obtain ⟨⟨⟨k1, k2⟩, k3⟩, k4⟩ := key
+      cases hf : Ex.rL.ds.d.findInv ⟨x.callee, x.req⟩ with
+      | none => rw [hf] at k4; cases k4
+      | some v =>
+        rw [hf] at k4
+        simp only [Bool.and_eq_true, Bool.not_eq_true'] at k4
+        obtain ⟨⟨⟨f1, f2⟩, f3⟩, f4⟩ := k4
+        refine ⟨{ Ex.rL with now := 65535 }, x, hr, by show x ∈ Ex.rL.retries; rw [hret]; exact List.mem_singleton.mpr rfl,
+          ⟨16, by decide, by decide, by decide, ?_, ?_⟩, k1.symm, ?_, v, hf, f1, f2, f3, f4⟩
+        · show x.next + 1 = x.start + 2 ^ 16
+          rw [k1, k2]
+        · show x.delay = 2 ^ (16 - 1)
+          rw [k3]
+        · show sendResultDeadlineMs ≤ 65535 - x.start
+          rw [k2]; decide
+
+/-- END TO END.  From a reachable state without fuel marker let `ms` milliseconds pass (`step (.tick ms)`, and no fuel
+    marker afterwards).  Then the clock is at `now + ms`, no entry of the retry table is due, every entry has been in
+    the loop for less than 65535 ms — and every entry `x` of the old table whose 65535 ms are over
+    (`x.start + 65535 ≤ now + ms`) IS GONE: whatever is in the table now started later.  So a handler that entered
+    the loop at time `s` is free again (its call cancelled if the caller never read: `C07_retry_gives_up`) at time
+    `s + 65535` at the latest, as soon as the clock gets there. -/
+theorem C07_retry_released_by_tick {cfg : Config} {r : Realm} (h : Realm.Reachable cfg r) (ms : Nat)
+    (hp : (r.step (.tick ms)).2.panic = none) :
+    (r.step (.tick ms)).2.now = r.now + ms ∧
+    (∀ y ∈ (r.step (.tick ms)).2.retries,
+      r.now + ms < y.next ∧ y.next ≤ y.start + 65535 ∧ (r.now + ms) - y.start < 65535) ∧
+    (∀ x ∈ r.retries, x.start + 65535 ≤ r.now + ms → ∀ y ∈ (r.step (.tick ms)).2.retries, x.start < y.start) := by
+  have hb := (C07_retry_bounded (Realm.Reachable.step (.tick ms) h) hp).1
+  have hnow := step_now r ms
+  refine ⟨hnow, fun y hy => ?_, fun x _ hx y hy => ?_⟩
+  · obtain ⟨_, b2, _, b4, _, b6⟩ := hb y hy
+    rw [hnow] at b2 b6
+    exact ⟨b2, b4, b6⟩
+  · obtain ⟨_, b2, _, b4, _, _⟩ := hb y hy
+    rw [hnow] at b2
+    omega
+
+/-- non-vacuity, and the whole story on a history: in the reachable state `Ex.rA` the meta session's handler has just
+    entered the loop (start 0); 65534 ms later it is in phase 16 (`Ex.rL_retries`), the call still pending; after
+    65535 ms the table is empty, the call and its invocation are gone, no fuel marker. -/
+example : (∃ x ∈ Ex.rA.retries, x.start + 65535 ≤ Ex.rA.now + 65535) ∧
+    (Ex.rA.step (.tick 65535)).2.panic = none ∧ (Ex.rA.step (.tick 65535)).2.retries = [] ∧
+    (Ex.rA.step (.tick 65535)).2.ds.d.calls = [] := by
+  have key : (Ex.rA.retries.any (fun x => decide (x.start + 65535 ≤ Ex.rA.now + 65535))) = true := by
+    set_option maxRecDepth 10000 in decide +kernel
+  obtain ⟨x, hx, hle⟩ := List.any_eq_true.mp key
+  exact ⟨⟨x, hx, by simpa using hle⟩, Ex.rZ_free.2.1, Ex.rZ_free.1, Ex.rZ_free.2.2.2.1⟩
+
+/-- THE RESTRICTED F19 GUARANTEE.  The exception of C07 is wider than its text when the callee held back is the META
+    SESSION (its handler serves `onJoin`/`onLeave`, every meta event and every meta procedure of the realm).  This is
+    when that can happen: the meta session's handler (callee `metaKey`) enters the retry loop ONLY for the RESULT
+    of a meta procedure whose caller's queue is full at that moment.  Precisely, in a state where no stored
+    invocation served by the meta session belongs to a caller whose queue is full:
+    * no internal task and no external input adds an entry for `metaKey` to the retry table;
+    * in particular the task that can — the meta-procedure handler's YIELD reaching the meta session's handler
+      (`metaMsg (yield …)`) — leaves the table unchanged;
+    * if the meta session is not held back, it is not held back afterwards.
+    So as long as no session with a pending meta-procedure call has a full queue, the meta session is never held
+    back and `session.on_join`/`on_leave` and the other meta events are never delayed by the retry loop.  (That the
+    exception is real: `Ex.rA` below; open finding F19.)
+    `hm` is part of `RealmInv`.  The statement covers a client that joined under key 0 (`metaKey`; the model's `Op`
+    does not forbid it) too: its invocations have `callee = metaKey`. -/
+theorem C07_meta_retry_only_full_caller (r : Realm) (hm : r.metaS.key = metaKey)
+    (hfree : ∀ v ∈ r.ds.d.invs, v.callee = metaKey → r.isFull v.callId.sess = false) :
+    (∀ t, ∀ x ∈ (r.runTask t).retries, x.callee = metaKey → x ∈ r.retries) ∧
+    (∀ op, ∀ x ∈ (r.stepOp op).retries, x.callee = metaKey → x ∈ r.retries) ∧
+    (∀ req opts args kw, (r.runTask (.metaMsg (.yield req opts args kw))).retries = r.retries) ∧
+    (r.busy metaKey = false → ∀ t, (r.runTask t).busy metaKey = false) := by
+  have key : ∀ {k : SessKey} {r' : Realm}, Enter k r r' → ∀ x ∈ r'.retries, x.callee = metaKey → x ∈ r.retries := by
+    intro k r' e x hx hxm
+    rcases e.mem hx with h | h
+    · exact h
+    · have hk : k = metaKey := h.symm.trans hxm
+      have := e.none_full (fun v hv hc => hfree v hv (hc.trans hk))
+      rw [this] at hx; exact hx
+  have h1 : ∀ t, ∀ x ∈ (r.runTask t).retries, x.callee = metaKey → x ∈ r.retries :=
+    fun t => key (runTask_enter r t).1
+  refine ⟨h1, fun op => ?_, fun req opts args kw => ?_, fun hb t => ?_⟩
+  · obtain ⟨k, e, _⟩ := stepOp_enter r op
+    exact key e
+  · have e := (runTask_enter r (.metaMsg (.yield req opts args kw))).1
+    exact e.none_full (fun v hv hc => hfree v hv (hc.trans hm))
+  · unfold Realm.busy at hb ⊢
+    rw [List.any_eq_false] at hb ⊢
+    intro x hx hxm
+    have hxm' : x.callee = metaKey := by simpa using hxm
+    exact hb x (h1 t x hx hxm') hxm
+
+/-- non-vacuity: client 1 (capacity 5, queue empty) has called a meta procedure; the invocation (callee 0 = the meta
+    session) is stored and the handler's YIELD is about to be run.  The hypothesis holds, the RESULT is delivered,
+    the meta session does not enter the loop. -/
+example : let r : Realm :=
+      { clients := [{ key := 1, details := [], roles := [], isLocal := false, cap := 5 }],
+        ds := { d := { calls := [⟨1, 7⟩], byCall := [(⟨1, 7⟩, ⟨0, 1⟩)],
+                       invs := [{ id := ⟨0, 1⟩, callId := ⟨1, 7⟩, callee := 0 }] } } }
+    (∀ v ∈ r.ds.d.invs, v.callee = metaKey → r.isFull v.callId.sess = false) ∧
+    (r.runTask (.metaMsg (.yield 1 [] [.int 1] []))).retries = [] ∧
+    (r.runTask (.metaMsg (.yield 1 [] [.int 1] []))).queues.map (fun q => (q.1, q.2.map (·.typeCode))) = [(1, [50])] := by
+  intro r
+  have hfree : ∀ v ∈ r.ds.d.invs, v.callee = metaKey → r.isFull v.callId.sess = false := by
+    intro v hv _
+    have : v = { id := ⟨0, 1⟩, callId := ⟨1, 7⟩, callee := 0 } := by simpa [r] using hv
+    subst this
+    decide
+  exact ⟨hfree, (C07_meta_retry_only_full_caller r rfl hfree).2.2.1 1 [] [.int 1] [], by decide +kernel⟩
+
+/-- … and the exception is real: in the reachable state `Ex.rA` (client 1, whose queue has no room, called
+    `wamp.session.count`) the META SESSION's handler is in the retry loop -/
+example : Realm.Reachable {} Ex.rA ∧ Ex.rA.busy metaKey = true := by
+  refine ⟨Ex.rA_reach, ?_⟩
+  set_option maxRecDepth 10000 in decide +kernel
+
+end RetryLoop
+/-! ## Stall isolation
+
+A client `x` that stops reading gets a full outbound queue; `trySend` to it then drops.  The theorems below say
+that this is all that happens: replace `x` by a session whose queue is fuller (or emptier), or that has
+stopped (or not stopped) reading — `WpC.EqOff x r r'`, see the header — and nothing changes for anybody else:
+not a table, not a task, not a clock, not another session's queue, not what the others read at the end of
+the step.  The dealer is the one place where the router asks "is this queue full?" before deciding
+(INVOCATION, INTERRUPT, RESULT), so the RPC half needs the side condition that `x` takes no part in any RPC
+(`WpC.Idle x`); without it the statement is false (`C07_stall_isolation_needs_idle`), and what happens
+instead is stated by `C07_stall_exception_callee` / `C07_stall_exception_caller`. -/
+
+section StallIsolation
+open Nexus.L2.WpC
+
+/-- ANY send (and any batch of sends) to ANYBODY, in two states that agree off `x`, leaves two states that
+    agree off `x`: a message for `x` itself may be queued in one state and dropped in the other — afterwards
+    only x's queue differs; a message for `k ≠ x` finds the same room in both, so it is queued in both or
+    dropped in both; the model's "send to a closed peer" marker is set in both or in neither.  In
+    particular every other session's queue is the same, message for message (`queueOf`). -/
+theorem C07_stall_isolation_send {x : SessKey} {r r' : Realm} (h : EqOff x r r') :
+    (∀ s, EqOff x (r.trySend s) (r'.trySend s)) ∧
+    (∀ ss, EqOff x (r.deliver ss) (r'.deliver ss)) ∧
+    (∀ ss k, k ≠ x → (r'.deliver ss).queueOf k = (r.deliver ss).queueOf k) ∧
+    (∀ ss, (r'.deliver ss).panic = (r.deliver ss).panic) :=
+  ⟨fun s => eqoff_trySend h s, fun ss => eqoff_deliver ss h,
+   fun ss _ hk => (eqoff_deliver ss h).queueOf hk, fun ss => (eqoff_deliver ss h).panic⟩
+
+/-- two concrete states that agree off session 1: in the second one session 1 has stopped reading and its
+    queue (capacity 2) is full -/
+def stallA : Realm :=
+  { clients := [{ key := 1, details := [], roles := [], isLocal := false, cap := 2 },
+                { key := 2, details := [], roles := [], isLocal := false }],
+    queues := [(1, []), (2, [])] }
+
+def stallB : Realm :=
+  { clients := [{ key := 1, details := [], roles := [], isLocal := false, cap := 2, stalled := true },
+                { key := 2, details := [], roles := [], isLocal := false }],
+    queues := [(1, [.other 0, .other 0]), (2, [])] }
+
+theorem stallAB : EqOff 1 stallA stallB :=
+  ⟨rfl, rfl, rfl, rfl, rfl, rfl, rfl, rfl, rfl, rfl, rfl, rfl, rfl, rfl, rfl, rfl, rfl, rfl, rfl⟩
+
+-- non-vacuity: a message for the stalled session is queued in `stallA` and dropped in `stallB` …
+example : ((stallA.trySend ⟨1, .other 7⟩).queueOf 1).length = 1 ∧ ((stallB.trySend ⟨1, .other 7⟩).queueOf 1).length = 2 := by
+  decide +kernel
+-- … and one for session 2 is queued in both
+example : (stallB.trySend ⟨2, .other 7⟩).queueOf 2 = (stallA.trySend ⟨2, .other 7⟩).queueOf 2 :=
+  (C07_stall_isolation_send stallAB).2.2.1 [⟨2, .other 7⟩] 2 (by decide)
+
+/-- PUB/SUB.  The broker never asks whether a queue is full.  For every PUBLISH, SUBSCRIBE or UNSUBSCRIBE
+    `m` of every session `s` (also of `x` itself: its acknowledgements go to its own queue), handled —
+    authorization gate included — in two states that agree off `x`: the resulting states agree off `x`.
+    Hence the subscription tables, the event history, the publication counter, the pending meta events and
+    every other session's queue (same EVENTs, same order: combine with `C07_lossy_in_order`) are the same
+    however full x's queue is. -/
+theorem C07_stall_isolation_pubsub {x : SessKey} {r r' : Realm} (h : EqOff x r r') (s : Session) (m : Msg)
+    (hm : (∃ req opts topic args kw, m = .publish req opts topic args kw) ∨
+          (∃ req opts topic, m = .subscribe req opts topic) ∨ (∃ req sub, m = .unsubscribe req sub)) :
+    EqOff x (handleMsg r s m) (handleMsg r' s m) ∧
+    (∀ k, k ≠ x → (handleMsg r' s m).queueOf k = (handleMsg r s m).queueOf k) ∧
+    (handleMsg r' s m).broker = (handleMsg r s m).broker := by
+  have hr : isRpc m = false := by
+    rcases hm with ⟨_, _, _, _, _, rfl⟩ | ⟨_, _, _, rfl⟩ | ⟨_, _, rfl⟩ <;> rfl
+  have e := eqoff_handleMsg h (SEq.refl s) m (Or.inl hr)
+  exact ⟨e, fun _ hk => e.queueOf hk, e.broker⟩
+
+-- non-vacuity: session 2 subscribes in both states; session 1's queue is full in one of them
+example : EqOff 1 (handleMsg stallA stallA.clients[1] (.subscribe 5 [] "t"))
+    (handleMsg stallB stallB.clients[1] (.subscribe 5 [] "t")) :=
+  (C07_stall_isolation_pubsub stallAB _ _ (Or.inr (Or.inl ⟨5, [], "t", rfl⟩))).1
+
+/-- THE DEALER READS `full` AT THREE PLACES ONLY.  Let two dealer environments agree off `x` (`EnvEq x`: same
+    sessions up to `stalled` of x, same clock, same answer to "is k's queue full?" for every k ≠ x).  Then
+    the dealer's actions give IDENTICAL outputs (new state, messages, meta events, aborted sessions,
+    retry verdict, panic marker) provided `x` is not the session whose queue the action consults:
+    * CALL consults the callee it picks — a callee of the matched registration, or of the stored invocation
+      for a later chunk of a progressive call;
+    * CANCEL (and a call timeout) consults the callee of the call's invocation — and nobody in mode skip;
+    * YIELD consults the caller of the invocation's call (an unknown progressive YIELD: the yielding
+      session itself), and on giving up cancels, consulting the callee, i.e. the yielding session;
+    * session removal never interrupts (mode skip): it consults nobody. -/
+theorem C07_stall_dealer_congruence {x : SessKey} {env env' : DEnv} (h : EnvEq x env env') (s : DState) :
+    (∀ caller req opts proc args kw rnd, (∀ g ∈ s.d.regs, x ∉ g.callees) → (∀ v ∈ s.d.invs, v.callee ≠ x) →
+      syncCall env' s caller req opts proc args kw rnd = syncCall env s caller req opts proc args kw rnd) ∧
+    (∀ caller req mode reason errArgs, (mode = CancelModeSkip ∨ ∀ v ∈ s.d.invs, v.callee ≠ x) →
+      syncCancel env' s caller req mode reason errArgs = syncCancel env s caller req mode reason errArgs) ∧
+    (∀ callee req opts args kw progress canRetry, callee ≠ x → (∀ c ∈ s.d.calls, c.sess ≠ x) →
+      (∀ v ∈ s.d.invs, v.callee ≠ x) →
+      syncYield env' s callee req opts args kw progress canRetry =
+        syncYield env s callee req opts args kw progress canRetry) ∧
+    (∀ k, syncRemoveSession env' s k = syncRemoveSession env s k) :=
+  ⟨fun caller req opts proc args kw rnd hr hi => syncCall_congr h s caller req opts proc args kw rnd hr hi,
+   fun caller req mode reason errArgs hc => syncCancel_congr h s caller req mode reason errArgs hc,
+   fun _ req opts args kw progress canRetry hk hc hi => syncYield_congr h s req opts args kw progress canRetry hk hc hi,
+   fun k => syncRemoveSession_congr h s k⟩
+
+/-- the environments of two realm states that agree off `x` agree off `x` -/
+theorem C07_stall_env {x : SessKey} {r r' : Realm} (h : EqOff x r r') : EnvEq x r.denv r'.denv := h.denv
+
+-- non-vacuity: the two concrete environments differ exactly in "is session 1's queue full?"
+example : stallA.denv.full 1 = false ∧ stallB.denv.full 1 = true ∧ EnvEq 1 stallA.denv stallB.denv :=
+  ⟨by decide +kernel, by decide +kernel, C07_stall_env stallAB⟩
+
+/-- the realm invariant of a realm whose tables are empty, whoever is attached -/
+theorem stall_rinv (cl : List Session) (qs : List (SessKey × List Msg)) :
+    RealmInv ({ clients := cl, queues := qs } : Realm) := by
+  refine ⟨BrokerInv.empty false false, DealerInv.init false false, ?_, ?_, ?_, ?_, ?_, ?_, rfl⟩
+  · rintro k ⟨s, hs, _⟩; cases hs
+  · rintro k (⟨id, g, hg, _⟩ | ⟨c, hc, _⟩ | ⟨v, hv, _⟩ | ⟨e, he, _⟩)
+    · cases hg
+    · cases hc
+    · cases hv
+    · cases he
+  · intro c hc; cases hc
+  · intro y hy; cases hy
+  · intro t ht; cases ht
+  · intro e he; cases he
+
+theorem stall_idle (cl : List Session) (qs : List (SessKey × List Msg)) (x : SessKey) :
+    Idle x ({ clients := cl, queues := qs } : Realm) := by
+  refine ⟨?_, fun y hy => (nomatch hy), fun m hm => (nomatch hm)⟩
+  rintro (⟨id, g, hg, _⟩ | ⟨c, hc, _⟩ | ⟨v, hv, _⟩ | ⟨e, he, _⟩)
+  · cases hg
+  · cases hc
+  · cases hv
+  · cases he
+
+/-- RPC.  `Idle x r`: the dealer's tables do not mention `x` (callee of no registration, caller of no pending
+    call, callee of no invocation, no entry in the callee index), x's handler is not in the yield retry
+    loop, and none of x's own RPC messages waits as an `inMsg` task.  In such a state (satisfying the
+    dealer invariant, as every reachable state does) EVERY message `m` of a session other than `x` — CALL,
+    CANCEL, YIELD, ERROR, REGISTER, UNREGISTER as well as pub/sub, GOODBYE and protocol violations — leaves
+    the two states equal off `x`, so every other session gets the same replies, invocations and events in
+    the same order; and `x` still takes no part afterwards.  A stalled pure subscriber or idle session
+    never affects anybody's RPC. -/
+theorem C07_stall_isolation_rpc {x : SessKey} {r r' : Realm} (h : EqOff x r r') (hd : DealerInv r.ds)
+    (hid : Idle x r) (s : Session) (hs : s.key ≠ x) (m : Msg) :
+    EqOff x (handleMsg r s m) (handleMsg r' s m) ∧
+    (∀ k, k ≠ x → (handleMsg r' s m).queueOf k = (handleMsg r s m).queueOf k) ∧
+    Idle x (handleMsg r s m) ∧ Idle x (handleMsg r' s m) := by
+  have e := eqoff_handleMsg h (SEq.refl s) m (Or.inr ⟨hs, hid.didle⟩)
+  have i := idle_handleMsg hd hid s m (Or.inr hs)
+  exact ⟨e, fun _ hk => e.queueOf hk, i, i.congr e⟩
+
+-- non-vacuity: session 2 calls an unknown procedure in both states
+example : EqOff 1 (handleMsg stallA stallA.clients[1] (.call 5 [] "p" [] []))
+    (handleMsg stallB stallB.clients[1] (.call 5 [] "p" [] [])) :=
+  (C07_stall_isolation_rpc stallAB (stall_rinv _ _).dinv (stall_idle _ _ 1) _ (by decide) _).1
+
+/-- EVERY ATOMIC ACTION of the realm model, in two states that agree off `x`, the first satisfying the realm
+    invariant, with `x ≠ metaKey` taking no part in any RPC:
+    (1) an internal task — a publication of the meta session, a meta-procedure invocation (the meta procedures
+        read the sessions only up to `stalled`, and no queue), the meta session's answer, a departure of ANY
+        session (of `x` too: its GOODBYE/ABORT may be dropped, the tables are cleaned in the same way, the
+        same `on_leave`/testament tasks are queued), a waiting message that is not an RPC message of `x`;
+    (2) an external input that is not an RPC message of `x` (`OpFree x`): join, any message of the others,
+        pub/sub or GOODBYE of `x`, drop, stall, resume, buffer, rnd;
+    (3) a call timeout firing;  (4) a turn of the yield retry loop of a handler other than x's
+    — the resulting states agree off `x`, and `x` still takes no part in any RPC. -/
+theorem C07_stall_isolation_actions {x : SessKey} {r r' : Realm} (hx : x ≠ metaKey) (h : EqOff x r r')
+    (hi : RealmInv r) (hid : Idle x r) :
+    (∀ t, TaskFree x t → EqOff x (r.runTask t) (r'.runTask t) ∧ Idle x (r.runTask t)) ∧
+    (∀ op, OpFree x op → EqOff x (r.stepOp op) (r'.stepOp op) ∧ Idle x (r.stepOp op)) ∧
+    (∀ t, EqOff x (r.timerDue t) (r'.timerDue t) ∧ Idle x (r.timerDue t)) ∧
+    (∀ y, y.callee ≠ x → EqOff x (r.retryDue y) (r'.retryDue y) ∧ Idle x (r.retryDue y)) ∧
+    (∀ k mode, EqOff x (r.leave k mode) (r'.leave k mode) ∧ Idle x (r.leave k mode)) :=
+  ⟨fun t ht => ⟨eqoff_runTask h hx hi.metaKey hid.didle t ht, idle_runTask hi.dinv hx hi.metaKey hid t ht⟩,
+   fun op ho => ⟨eqoff_stepOp h hid.didle op ho, idle_stepOp hi.dinv hid op ho⟩,
+   fun t => ⟨eqoff_timerDue h hid.didle t, idle_timerDue hi.dinv hid t⟩,
+   fun y hy => ⟨eqoff_retryDue h hid.didle y hy, idle_retryDue hi.dinv hid y hy⟩,
+   fun k mode => ⟨eqoff_leave h k mode, idle_leave hi.dinv hid k mode⟩⟩
+
+-- non-vacuity: the hypotheses hold for the two concrete states (session 1 attached, tables empty)
+example := C07_stall_isolation_actions (x := 1) (by decide) stallAB (stall_rinv _ _) (stall_idle _ _ 1)
+
+/-- STALL ISOLATION, one step.  Let `r`, `r'` agree off `x ≠ metaKey`, `r` satisfy the realm invariant (every
+    reachable state does) and `x` take no part in any RPC.  Let `op` be any external input other than an RPC
+    message sent by `x` itself — `tick` included: all call timeouts and retry turns that fall due, each
+    followed by the internal tasks it causes.  Run the step to quiescence and flush, on both sides.  Then
+    * the successor states agree off `x`;
+    * every client other than `x` reads exactly the same: the queues handed to the reading clients,
+      restricted to keys ≠ x, are the same list (same clients, in the same order, each with the same messages
+      in the same order) — nothing is missing, nothing is delayed to a later step, nothing is reordered;
+      in particular (membership form) whatever one run shows to a client `k ≠ x` the other shows too;
+    * the same peers (other than `x`) are seen closed, and the panic flag is the same;
+    * the side conditions hold again for the successor states, so the theorem applies to the next step.
+    However full x's queue is, and whether or not `x` reads, nobody else can tell. -/
+theorem C07_stall_isolation {x : SessKey} {r r' : Realm} (hx : x ≠ metaKey) (h : EqOff x r r')
+    (hi : RealmInv r) (hid : Idle x r) (op : Op) (hop : OpFree x op) :
+    EqOff x (r.step op).2 (r'.step op).2 ∧
+    (r'.step op).1.out.filter (fun q => q.1 != x) = (r.step op).1.out.filter (fun q => q.1 != x) ∧
+    (∀ q, q.1 ≠ x → (q ∈ (r.step op).1.out ↔ q ∈ (r'.step op).1.out)) ∧
+    (r'.step op).1.closed.filter (· != x) = (r.step op).1.closed.filter (· != x) ∧
+    (r'.step op).1.panic = (r.step op).1.panic ∧
+    RealmInv (r.step op).2 ∧ Idle x (r.step op).2 ∧ Idle x (r'.step op).2 := by
+  obtain ⟨a, b, c, d, e, f⟩ := eqoff_step hx h hi hid op hop
+  refine ⟨a, b, ?_, c, d, e, f, f.congr a⟩
+  intro q hq
+  have hq' : (q.1 != x) = true := by simpa using hq
+  have m1 : q ∈ (r.step op).1.out ↔ q ∈ (r.step op).1.out.filter (fun q => q.1 != x) := by
+    rw [List.mem_filter]; exact ⟨fun h => ⟨h, hq'⟩, fun h => h.1⟩
+  have m2 : q ∈ (r'.step op).1.out ↔ q ∈ (r'.step op).1.out.filter (fun q => q.1 != x) := by
+    rw [List.mem_filter]; exact ⟨fun h => ⟨h, hq'⟩, fun h => h.1⟩
+  rw [m1, m2, b]
+
+-- non-vacuity: session 2 publishes (acknowledged); it reads its PUBLISHED in both runs, although session 1
+-- has stopped reading and its queue is full in one of them
+example : ((stallB.step (.msg 2 (.publish 9 [(OptAcknowledge, .bool true)] "t" [] []))).1.out.filter (fun q => q.1 != 1)) =
+    ((stallA.step (.msg 2 (.publish 9 [(OptAcknowledge, .bool true)] "t" [] []))).1.out.filter (fun q => q.1 != 1)) :=
+  (C07_stall_isolation (x := 1) (by decide) stallAB (stall_rinv _ _) (stall_idle _ _ 1) (.msg 2 _)
+    (show OpFree 1 (.msg 2 _) from fun e => absurd e (by decide))).2.1
+
+example : ((stallA.step (.msg 2 (.publish 9 [(OptAcknowledge, .bool true)] "t" [] []))).1.out.map (fun q => (q.1, q.2.length))) = [(2, 1)] := by
+  decide +kernel
+
+/-- STALL ISOLATION, histories.  Two runs (`runOps`: the observations step by step and the final state) from
+    states that agree off `x`, fed corresponding inputs (`OpRel x`): the same input in both runs — anything
+    but an RPC message of `x` — or, in both runs, `x` switching between reading and not reading, not
+    necessarily in the same direction (`stall x` in one run may face `resume x`, a no-op for a reading
+    client, in the other).  Then at every step the two observations agree for everybody but `x` (`ObsEq x`:
+    same queues read by the others, same closures seen by the others, same panic flag), and the final
+    states agree off `x`.  I.e.: whether, when and for how long `x` stops reading is unobservable to every
+    other client. -/
+theorem C07_stall_isolation_history {x : SessKey} (hx : x ≠ metaKey) {ops ops' : List Op}
+    (hops : Rel2 (OpRel x) ops ops') {r r' : Realm} (h : EqOff x r r') (hi : RealmInv r) (hid : Idle x r) :
+    Rel2 (ObsEq x) (runOps r ops).1 (runOps r' ops').1 ∧ EqOff x (runOps r ops).2 (runOps r' ops').2 ∧
+    RealmInv (runOps r ops).2 ∧ Idle x (runOps r ops).2 :=
+  eqoff_runOps hx hops h hi hid
+
+/-- … in particular from one and the same state: a run in which `x` stops reading before the first input,
+    compared with the run in which it goes on reading (`resume x` on a reading client changes nothing) -/
+theorem C07_stall_unobservable {x : SessKey} (hx : x ≠ metaKey) {r : Realm} (hi : RealmInv r) (hid : Idle x r)
+    (ops : List Op) (hops : ∀ op ∈ ops, OpFree x op) :
+    Rel2 (ObsEq x) (runOps r (.resume x :: ops)).1 (runOps r (.stall x :: ops)).1 := by
+  have hrel : ∀ l : List Op, (∀ op ∈ l, OpFree x op) → Rel2 (OpRel x) l l := by
+    intro l
+    induction l with
+    | nil => intro _; exact Rel2.nil
+    | cons a l ih =>
+      intro hl
+      exact Rel2.cons (Or.inl ⟨rfl, hl a (List.mem_cons_self ..)⟩) (ih (fun op ho => hl op (List.mem_cons_of_mem _ ho)))
+  exact (C07_stall_isolation_history hx (Rel2.cons (Or.inr ⟨Or.inr rfl, Or.inl rfl⟩) (hrel ops hops))
+    (EqOff.refl r) hi hid).1
+
+-- non-vacuity: a history in which session 1 publishes and session 2 calls, for the concrete state above
+example : Rel2 (ObsEq 1)
+    (runOps stallA [.resume 1, .msg 1 (.publish 3 [] "t" [] []), .msg 2 (.call 4 [] "p" [] []), .tick 5]).1
+    (runOps stallA [.stall 1, .msg 1 (.publish 3 [] "t" [] []), .msg 2 (.call 4 [] "p" [] []), .tick 5]).1 :=
+  C07_stall_unobservable (by decide) (stall_rinv _ _) (stall_idle _ _ 1) _ (by
+    intro op ho
+    simp only [List.mem_cons, List.mem_nil_iff, or_false] at ho
+    rcases ho with rfl | rfl | rfl
+    · intro _; rfl
+    · intro e; cases e
+    · trivial)
+
+/-- WHERE THE SIDE CONDITIONS HOLD: in every state reached from `Realm.create cfg` by inputs none of which is
+    an RPC message of `x` (`FreeReachable x cfg`; `x` may join, publish, subscribe, stop reading, be killed,
+    leave, join again; everybody else may do anything) the realm invariant holds and `x` takes no part in
+    any RPC — so `C07_stall_isolation` applies along the whole history of a pure pub/sub client. -/
+theorem C07_stall_idle_reachable {x : SessKey} (hx : x ≠ metaKey) {cfg : Config} {r : Realm}
+    (h : FreeReachable x cfg r) : Realm.Reachable cfg r ∧ RealmInv r ∧ Idle x r :=
+  ⟨h.reachable, (h.idle hx).1, (h.idle hx).2⟩
+
+example : ∃ r, FreeReachable 1 {} r := by
+  cases h : Realm.create {} with
+  | none => exact absurd h (by decide +kernel)
+  | some r => exact ⟨r, FreeReachable.init h⟩
+
+/-! ### the exceptions -/
+
+/-- a reachable state in which session 1 (capacity 1) is the callee of procedure "p" and session 2 is attached -/
+def excA : Realm :=
+  (((((Realm.create {}).getD {}).step (.join 1 false [] [] 1)).2.step (.join 2 false [] [] 64)).2.step
+    (.msg 1 (.register 3 [] "p"))).2
+
+/-- the same state, except that session 1 has stopped reading and one message fills its queue -/
+def excB : Realm := (excA.stepOp (.stall 1)).trySend ⟨1, .other 0⟩
+
+theorem excA_reachable : Realm.Reachable {} excA := by
+  cases h : Realm.create {} with
+  | none => exact absurd h (by decide +kernel)
+  | some r =>
+    have : excA = (((r.step (.join 1 false [] [] 1)).2.step (.join 2 false [] [] 64)).2.step
+        (.msg 1 (.register 3 [] "p"))).2 := by
+      unfold excA; rw [h]; rfl
+    rw [this]
+    exact .step _ (.step _ (.step _ (.init h)))
+
+set_option maxRecDepth 100000 in
+theorem excAB : EqOff 1 excA excB := by
+  have h1 : EqOff 1 excA (excA.stepOp (.stall 1)) := eqoff_stalled_self excA true
+  have hc : ∃ c, (excA.stepOp (.stall 1)).client? 1 = some c := by
+    cases h : (excA.stepOp (.stall 1)).client? 1 with
+    | none => exact absurd h (by decide +kernel)
+    | some c => exact ⟨c, rfl⟩
+  obtain ⟨c, hc⟩ := hc
+  exact h1.trans (eqoff_trySend_self _ _ (by decide) hc)
+
+/-- THE SIDE CONDITION IS NEEDED (the exception in the property text is real).  `excA` is reachable (so it
+    satisfies every invariant), `excB` agrees with it off session 1, whose queue is full in `excB`; session 1 is
+    the callee of "p".  Session 2 calls "p": in `excA` the INVOCATION is queued for session 1 and session 2
+    hears nothing yet; in `excB` session 2 gets ERROR wamp.error.network_failure in the same atomic action
+    (`C02_unroutable_callee_full`).  The two states no longer agree off session 1. -/
+theorem C07_stall_isolation_needs_idle :
+    ∃ (r r' : Realm) (s : Session) (m : Msg), Realm.Reachable {} r ∧ EqOff 1 r r' ∧ s.key ≠ 1 ∧
+      ¬ EqOff 1 (handleMsg r s m) (handleMsg r' s m) := by
+  refine ⟨excA, excB, { key := 2, details := [], roles := [], isLocal := false }, .call 7 [] "p" [] [],
+    excA_reachable, excAB, by decide, ?_⟩
+  intro h
+  have := congrArg List.length (h.queueOf (k := 2) (by decide))
+  revert this
+  set_option maxRecDepth 100000 in decide +kernel
+
+/-- What happens INSTEAD when `x` is the callee (`C02_unroutable_callee_full`, `C02_later_chunk_callee_full` give the
+    complete effect; `C13_kill_degrades` the analogue for INTERRUPT): the INVOCATION for a callee whose queue is
+    full is, within the same atomic action — no delay for the caller — treated as answered with ERROR
+    wamp.error.network_failure; nothing is queued for the callee. -/
+theorem C07_stall_exception_callee {env : DEnv} (s : DState) (caller : SessKey) (req : Nat) {x : SessKey} (invReq : Nat)
+    (v : Invk) (timeout : Nat) (m : Msg) (hf : env.full x = true) :
+    Nexus.L2.dispatch env s caller req x invReq v timeout m =
+      syncError s x invReq [] ErrNetworkFailure [.str "<text>"] [] := by
+  unfold Nexus.L2.dispatch
+  rw [if_pos hf]
+
+/-- What happens INSTEAD when `x` is the caller: a YIELD (by the owner of the invocation, not misusing payload
+    passthru) whose RESULT meets x's full queue changes nothing but stopping the call timer of a final result,
+    sends nothing, and answers "again": the callee's handler enters the yield retry loop (`C13_retry_enter`,
+    `C13_retry_turn`, `C13_retry_bound`: bounded by the result-retry period, then the call is cancelled) — the
+    one bounded delay the property text allows, and it hits the callee that served `x`, nobody else. -/
+theorem C07_stall_exception_caller {env : DEnv} {s : DState} {callee : SessKey} {req : Nat} {opts : Dict}
+    (args : List WVal) (kw : Dict) (progress : Bool) (v : Invk)
+    (h1 : yieldPptCalleeBad env callee opts = false) (h2 : yieldPptCallerBad env v.callId.sess opts = false)
+    (hf : env.full v.callId.sess = true) :
+    yieldOut env s callee req opts args kw progress true v = { st := yieldTimer s progress v, again := true } :=
+  yieldOut_retry args kw progress v h1 h2 hf
+
+-- non-vacuity: the caller (session 2) of the pending call of `Ex.sCall` has a full queue; callee 1 yields
+example : (yieldOut Ex.envCallerFull Ex.sCall 1 1 [] [] [] false true Ex.vCall).again = true := by
+  rw [C07_stall_exception_caller (env := Ex.envCallerFull) (s := Ex.sCall) (callee := 1) (req := 1) (opts := [])
+    [] [] false Ex.vCall (by decide +kernel) (by decide +kernel) (by decide +kernel)]
+
+-- non-vacuity of `C07_stall_exception_callee`: session 1's queue is full in `stallB`
+example : stallB.denv.full 1 = true := by decide +kernel
+
+end StallIsolation
 
 end Nexus.C07
